@@ -85,7 +85,7 @@ theorem addLoop_ok {gid : Nat} {st : Store} (hs : StoreInv st) {t : Trx} (ht : T
 through a successful `init` and never changes an existing one -/
 theorem addCommands_inv {gid : Nat} {store : Option Store} {t : Trx} (sink : List SinkEv) (batch : List In)
     (hst : ∀ st, store = some st → StoreInv st)
-    (ht : match store with | none => t = {} | some st => TrxOK st t) :
+    (ht : match (generalizing := false) store with | none => t = {} | some st => TrxOK st t) :
     (match (addCommands gid store t sink batch).1 with
      | none => store = none ∧ (addCommands gid store t sink batch).2.1 = t
      | some st' => StoreInv st' ∧ TrxOK st' (addCommands gid store t sink batch).2.1 ∧
@@ -438,5 +438,293 @@ theorem action_spec {st : Store} (sink : List SinkEv) (ms pubs : List Cmd) (hs :
             have h2 := r5 last.cmd (getLast?_cmds hl)
             simp only [cmds_append] at h1 h2 ⊢
             exact h1.trans h2
+
+/-! ## the client LTS -/
+
+theorem mem_dropSlot {l : List (Nat × Trx)} {s : Nat} {x : Nat × Trx} (h : x ∈ dropSlot l s) : x ∈ l :=
+  (List.mem_filter.mp h).1
+
+theorem mem_setSlot {l : List (Nat × Trx)} {s : Nat} {t : Trx} {x : Nat × Trx} (h : x ∈ setSlot l s t) :
+    x = (s, t) ∨ x ∈ l := by
+  rcases List.mem_cons.mp h with e | e
+  · exact Or.inl e
+  · exact Or.inr (mem_dropSlot e)
+
+theorem getSlot_mem {l : List (Nat × Trx)} {s : Nat} {t : Trx} (h : getSlot l s = some t) : (s, t) ∈ l := by
+  simp only [getSlot, Option.map_eq_some_iff] at h
+  obtain ⟨x, hx, rfl⟩ := h
+  have h1 := List.mem_of_find?_eq_some hx
+  have h2 := List.find?_some hx
+  have : x.1 = s := by simpa using h2
+  rw [← this]; exact h1
+
+theorem TrxOK.bump {st st' : Store} {t : Trx} (h : TrxOK st t) (hs : st'.stamp = st.stamp + 1) : TrxOK st' t := by
+  unfold TrxOK at h ⊢
+  split
+  · rename_i ho; rw [ho] at h; exact h
+  · rename_i o ho
+    rw [ho] at h
+    simp only at h
+    exact ⟨by omega, fun e => by omega⟩
+
+/-- `commit` either leaves the store as it is or (only for a transaction holding the current
+stamp) replaces it by a store that satisfies the invariant and carries the next stamp -/
+theorem commit_store {st : Store} {t : Trx} (sink : List SinkEv) (hs : StoreInv st) (ht : TrxOK st t) :
+    (commit (some st) t sink).1 = some st ∨
+    (∃ st', (commit (some st) t sink).1 = some st' ∧ StoreInv st' ∧ st'.stamp = st.stamp + 1 ∧
+      t.offset = some st.stamp ∧ st'.graph = st.graph ++ accepted t) := by
+  unfold TrxOK at ht
+  cases ho : t.offset with
+  | none => left; simp [commit, ho]
+  | some o =>
+    rw [ho] at ht
+    simp only at ht
+    by_cases he : o = st.stamp
+    · subst he
+      rcases commit_live sink hs (ht.2 rfl) ho with ⟨e, hc, _⟩ | ⟨st', sink', hc, hg, hst, hinv, _⟩
+      · left; rw [hc]
+      · right; exact ⟨st', by rw [hc], hinv, hst, rfl, hg⟩
+    · left; simp [commit, ho, he]
+
+theorem step_inv {cl : Client} (h : ClientInv cl) (op : Op) : ClientInv (step cl op).1 := by
+  cases op with
+  | openT s =>
+    refine ⟨h.store, ?_⟩
+    intro s' t' hm
+    rcases mem_setSlot hm with e | e
+    · injection e with _ e; subst e
+      simp only [step]
+      cases cl.store with
+      | none => simp
+      | some st => exact TrxOK.fresh st
+    · exact h.trxs s' t' e
+  | dropT s =>
+    exact ⟨h.store, fun s' t' hm => h.trxs s' t' (mem_dropSlot hm)⟩
+  | add s batch =>
+    simp only [step]
+    cases hg : getSlot cl.trxs s with
+    | none => exact h
+    | some t =>
+      simp only
+      have hm := getSlot_mem hg
+      have hinv := addCommands_inv (gid := cl.gid) cl.sink batch h.store (h.trxs s t hm)
+      cases hr : (addCommands cl.gid cl.store t cl.sink batch).1 with
+      | none =>
+        rw [hr] at hinv
+        simp only at hinv
+        refine ⟨(by intro st e; cases e), ?_⟩
+        intro s' t' hm'
+        simp only
+        have hnone := hinv.1
+        rcases mem_setSlot hm' with e | e
+        · injection e with _ e; subst e
+          rw [hinv.2]
+          have := h.trxs s t hm
+          rw [hnone] at this; exact this
+        · have := h.trxs s' t' e
+          rw [hnone] at this; exact this
+      | some st' =>
+        rw [hr] at hinv
+        simp only at hinv
+        obtain ⟨hs', ht', hcase⟩ := hinv
+        refine ⟨by intro st e; injection e with e; subst e; exact hs', ?_⟩
+        intro s' t' hm'
+        simp only
+        rcases mem_setSlot hm' with e | e
+        · injection e with _ e; subst e; exact ht'
+        · have := h.trxs s' t' e
+          rcases hcase with hc | hc
+          · rw [hc] at this; exact this
+          · rw [hc] at this; simp only at this; subst this; exact TrxOK.fresh st'
+  | flush s =>
+    simp only [step]
+    cases hg : getSlot cl.trxs s with
+    | none => exact h
+    | some t =>
+      simp only
+      cases hst : cl.store with
+      | none => exact h
+      | some st =>
+        simp only
+        refine ⟨by intro st' e; exact h.store st' (by rw [hst]; exact e), ?_⟩
+        intro s' t' hm'
+        simp only [hst]
+        rcases mem_setSlot hm' with e | e
+        · injection e with _ e; subst e
+          have := h.trxs s t (getSlot_mem hg)
+          rw [hst] at this
+          simp only [TrxOK] at this ⊢
+          rw [flushT_offset]
+          cases ho : t.offset with
+          | none => rw [ho] at this; simp only at this ⊢; subst this; rfl
+          | some o =>
+            rw [ho] at this
+            simp only at this ⊢
+            exact ⟨this.1, fun e => (flushT_inv (this.2 e)).1⟩
+        · have := h.trxs s' t' e
+          rw [hst] at this; exact this
+  | commit s =>
+    simp only [step]
+    cases hg : getSlot cl.trxs s with
+    | none => exact h
+    | some t =>
+      simp only
+      cases hst : cl.store with
+      | none =>
+        refine ⟨by intro st e; simp [commit] at e, ?_⟩
+        intro s' t' hm'
+        have := h.trxs s' t' (mem_dropSlot hm')
+        rw [hst] at this
+        simpa [commit] using this
+      | some st =>
+        have hs := h.store st hst
+        have ht := h.trxs s t (getSlot_mem hg)
+        rw [hst] at ht
+        rcases commit_store cl.sink hs ht with hc | ⟨st', hc, hinv, hstamp, _, _⟩
+        · refine ⟨by intro st' e; simp only at e; rw [hc] at e; injection e with e; subst e; exact hs, ?_⟩
+          intro s' t' hm'
+          simp only
+          rw [hc]
+          have := h.trxs s' t' (mem_dropSlot hm')
+          rw [hst] at this; exact this
+        · refine ⟨by intro st'' e; simp only at e; rw [hc] at e; injection e with e; subst e; exact hinv, ?_⟩
+          intro s' t' hm'
+          simp only
+          rw [hc]
+          have := h.trxs s' t' (mem_dropSlot hm')
+          rw [hst] at this
+          exact this.bump hstamp
+  | action ms pubs =>
+    simp only [step]
+    cases hst : cl.store with
+    | none =>
+      refine ⟨by intro st e; simp [action] at e, ?_⟩
+      intro s' t' hm'
+      have := h.trxs s' t' hm'
+      rw [hst] at this
+      simpa [action] using this
+    | some st =>
+      have hs := h.store st hst
+      rcases action_spec cl.sink ms pubs hs with ⟨e, evs, hc, _⟩ | ⟨st', merges, new, last, evs, hc, _, _, _, _, _, _, _, hstamp, hinv, _⟩
+      · refine ⟨by intro st' e'; simp only at e'; rw [hc] at e'; injection e' with e'; subst e'; exact hs, ?_⟩
+        intro s' t' hm'
+        simp only
+        rw [hc]
+        have := h.trxs s' t' hm'
+        rw [hst] at this; exact this
+      · refine ⟨by intro st'' e'; simp only at e'; rw [hc] at e'; injection e' with e'; subst e'; exact hinv, ?_⟩
+        intro s' t' hm'
+        simp only
+        rw [hc]
+        have := h.trxs s' t' hm'
+        rw [hst] at this
+        exact this.bump hstamp
+
+theorem run_inv {cl : Client} (h : ClientInv cl) (ops : List Op) : ClientInv (run cl ops) := by
+  induction ops generalizing cl with
+  | nil => exact h
+  | cons o rest ih => exact ih (step_inv h o)
+
+theorem ClientInv.init (gid : Nat) : ClientInv { gid := gid } :=
+  ⟨(by intro st e; cases e), (by intro s t hm; cases hm)⟩
+
+/-! ## tips of a transaction, growth of the committed graph, coverage by the heads -/
+
+/-- the transaction's tips: the written tips plus the head of the in-flight perspective -/
+def tipsOf (t : Trx) : List Nat :=
+  t.heads ++ (match t.persp, t.phead with
+    | some _, some h => [h]
+    | _, _ => [])
+
+theorem tipsOf_iff {st : Store} {t : Trx} (h : TrxInv st t) (i : Nat) :
+    i ∈ tipsOf t ↔ IsTip (cmds (view st t)) i := by
+  obtain ⟨h1, hp1, _, hpb1, hw1, _⟩ := flushT_inv h
+  have hv := h.view_flush.1
+  have e1 : IsTip (cmds (view st t)) i ↔ i ∈ (flushT t).heads := by
+    rw [← hv]
+    have := h1.heads i
+    rw [hpb1] at this
+    simp only [List.not_mem_nil, or_false] at this
+    rw [this]
+    simp [view, inflight, hp1]
+  rw [e1]
+  have hp := h.persp
+  unfold PerspOK at hp
+  unfold tipsOf flushT
+  cases hpe : t.persp with
+  | none => rw [hpe] at hp; simp [hp.1]
+  | some p =>
+    rw [hpe] at hp
+    obtain ⟨last, hl, hph, _⟩ := hp
+    simp only [hl, hph, List.mem_append, List.mem_singleton, mem_hsPush]
+    exact Or.comm
+
+/-- every step only appends to the committed graph -/
+theorem step_graph_prefix {cl : Client} (h : ClientInv cl) (op : Op) {st : Store} (hst : cl.store = some st) :
+    ∃ st' extra, (step cl op).1.store = some st' ∧ st'.graph = st.graph ++ extra ∧
+      (st' = st ∨ st'.stamp = st.stamp + 1) := by
+  have hs := h.store st hst
+  cases op with
+  | openT s => exact ⟨st, [], hst, by simp, Or.inl rfl⟩
+  | dropT s => exact ⟨st, [], hst, by simp, Or.inl rfl⟩
+  | add s batch =>
+    simp only [step]
+    cases hg : getSlot cl.trxs s with
+    | none => exact ⟨st, [], hst, by simp, Or.inl rfl⟩
+    | some t => exact ⟨st, [], by simp [addCommands, hst], by simp, Or.inl rfl⟩
+  | flush s =>
+    simp only [step]
+    cases hg : getSlot cl.trxs s with
+    | none => exact ⟨st, [], hst, by simp, Or.inl rfl⟩
+    | some t => simp only [hst]; exact ⟨st, [], rfl, by simp, Or.inl rfl⟩
+  | commit s =>
+    simp only [step]
+    cases hg : getSlot cl.trxs s with
+    | none => exact ⟨st, [], hst, by simp, Or.inl rfl⟩
+    | some t =>
+      have ht := h.trxs s t (getSlot_mem hg)
+      rw [hst] at ht
+      simp only [hst]
+      rcases commit_store cl.sink hs ht with hc | ⟨st', hc, _, hstamp, _, hgr⟩
+      · exact ⟨st, [], hc, by simp, Or.inl rfl⟩
+      · exact ⟨st', accepted t, hc, hgr, Or.inr hstamp⟩
+  | action ms pubs =>
+    simp only [step, hst]
+    rcases action_spec cl.sink ms pubs hs with ⟨e, evs, hc, _⟩ | ⟨st', merges, new, last, evs, hc, _, hgr, _, _, _, _, _, hstamp, _, _⟩
+    · exact ⟨st, [], by rw [hc], by simp, Or.inl rfl⟩
+    · exact ⟨st', merges ++ new, by rw [hc], by rw [hgr, List.append_assoc], Or.inr hstamp⟩
+
+theorem run_graph_prefix {cl : Client} (h : ClientInv cl) (ops : List Op) {st : Store} (hst : cl.store = some st) :
+    ∃ st' extra, (run cl ops).store = some st' ∧ st'.graph = st.graph ++ extra ∧ st.stamp ≤ st'.stamp ∧
+      (st'.stamp = st.stamp → st' = st) := by
+  induction ops generalizing cl st with
+  | nil => exact ⟨st, [], hst, by simp, Nat.le_refl _, fun _ => rfl⟩
+  | cons o rest ih =>
+    obtain ⟨st1, e1, hs1, hg1, hc1⟩ := step_graph_prefix h o hst
+    obtain ⟨st2, e2, hs2, hg2, hle, heq⟩ := ih (step_inv h o) hs1
+    refine ⟨st2, e1 ++ e2, hs2, by rw [hg2, hg1, List.append_assoc], ?_, ?_⟩
+    · rcases hc1 with rfl | hc1 <;> omega
+    · intro e
+      rcases hc1 with rfl | hc1
+      · exact heq e
+      · omega
+
+/-- every command of a well-formed graph reaches a tip: nothing committed is unreachable from the heads -/
+theorem reach_tip {g : Graph} (h : WF g) : ∀ x ∈ ids g, ∃ t, IsTip g t ∧ Reach g x t := by
+  induction h with
+  | nil => intro x hx; simp [ids] at hx
+  | @snoc g c hw h1 h2 h3 h4 ih =>
+    have hwf : WF (g ++ [c]) := WF.snoc hw h1 h2 h3 h4
+    intro x hx
+    rw [ids_append, List.mem_append] at hx
+    rcases hx with hx | hx
+    · obtain ⟨t, ht, hr⟩ := ih x hx
+      by_cases hp : t ∈ c.parents
+      · refine ⟨c.id, (isTip_snoc hwf _).mpr (Or.inl rfl), ?_⟩
+        exact Reach.tail (Reach.mono hr) ⟨c, by simp, rfl, hp⟩
+      · exact ⟨t, (isTip_snoc hwf _).mpr (Or.inr ⟨ht, hp⟩), Reach.mono hr⟩
+    · have : x = c.id := by simpa [ids] using hx
+      subst this
+      exact ⟨c.id, (isTip_snoc hwf _).mpr (Or.inl rfl), Reach.refl _⟩
 
 end AranyaV.Trx
